@@ -161,7 +161,7 @@ pub fn gen_c05(seed: u64, sub: &str, idx: u64) -> Scenario {
     // the block-size argument is authoritative; the configuration's field sometimes differs
     cfg.block_size = if rng.chance(1, 4) { *rng.pick(&[32usize, 64, 4096, 1000]) } else { block };
     let (workers, env) = if sub == "env" {
-        let v = ["1", "2", "3", "7", "16", "64", "abc", "", "0", "99999999999999999999", " 4", "-1", "08"][(idx % 13) as usize];
+        let v = ENV_VALUES[(idx % ENV_VALUES.len() as u64) as usize];
         (None, Some(v.to_string()))
     } else {
         (Some(*rng.pick(&[1usize, 2, 2, 3, 4, 4, 8, 16, 32])), None)
@@ -183,6 +183,11 @@ pub fn gen_c05(seed: u64, sub: &str, idx: u64) -> Scenario {
         bare_eof: idx % 4 == 1,
     }
 }
+
+/// Values of the FLACENC_WORKERS override: small counts, strings that do not parse, zero, a value
+/// beyond u64, and counts no machine can serve (usize::MAX, 2^63, 2^32: the library must clamp or
+/// ignore them - not overflow, not try to start that many threads).
+pub const ENV_VALUES: [&str; 17] = ["1", "2", "3", "7", "16", "64", "abc", "", "0", "99999999999999999999", " 4", "-1", "08", "18446744073709551615", "9223372036854775808", "4294967296", "1025"];
 
 /// Enumerated fault grid for C06: (F frames, fault kind, position k, W, policy).
 pub fn c06_grid(tier: Tier) -> Vec<(usize, u8, usize, usize, usize)> {
@@ -241,6 +246,18 @@ pub fn gen_c06(seed: u64, tier: Tier, sub: &str, idx: u64) -> Scenario {
             let w = *rng.pick(&[1usize, 2, 3, 4, 8]);
             (f, faults, w, rng.usize_below(POLICIES.len()), format!("combo F={f}"))
         }
+        "env" => {
+            // the worker count comes from the environment override (config.workers = None):
+            // one fault, two faults or none
+            let f = 1 + rng.usize_below(8);
+            let faults = match idx % 4 {
+                0 => vec![],
+                1 => vec![Fault::ErrAt(rng.usize_below(f + 1))],
+                2 => vec![Fault::BadAt { read: rng.usize_below(f), pos: rng.usize_below(3) as u8, ch: rng.usize_below(channels), value: bad_value(&mut rng) }],
+                _ => vec![Fault::BadAt { read: rng.usize_below(f), pos: 0, ch: 0, value: bad_value(&mut rng) }, Fault::ErrAt(rng.usize_below(f + 1))],
+            };
+            (f, faults, 0, rng.usize_below(POLICIES.len()), format!("env F={f} FLACENC_WORKERS={:?}", ENV_VALUES[((idx / 4) % ENV_VALUES.len() as u64) as usize]))
+        }
         "ragged" => {
             // a block that is not a whole number of inter-channel samples, at read k (the source
             // misbehaves; what the library does with it may be an error or not, but multi-thread
@@ -267,8 +284,8 @@ pub fn gen_c06(seed: u64, tier: Tier, sub: &str, idx: u64) -> Scenario {
         audio: Arc::new(audio),
         cfg,
         block,
-        workers: Some(w),
-        env: None,
+        workers: if sub == "env" { None } else { Some(w) },
+        env: if sub == "env" { Some(ENV_VALUES[((idx / 4) % ENV_VALUES.len() as u64) as usize].to_string()) } else { None },
         policy: POLICIES[pol % POLICIES.len()],
         faults,
         mode: FillMode::Int,
@@ -540,7 +557,7 @@ pub fn run_c05(ctx: &Ctx) -> i32 {
     let ooo = out.stats.get("runs_with_out_of_order_completion").copied().unwrap_or(0);
     let fin = Finish {
         level: "exploration",
-        rule: "every scenario (generated input with alternating cheap/expensive blocks x configuration x W in {1,2,3,4,8,16,32} or FLACENC_WORKERS in 13 strings x 8 schedule policies injected at the hook's scheduling points; plus 'long' scenarios of more than 65536 frames and 'big' scenarios with blocks of 64-768 KiB raw from a source without a length hint) runs in a supervised child, one multi-thread call at a time: bytes(single) == bytes(multi) == bytes(frame-by-frame assembly) == bytes(multi, repeated); the totally ordered event log is checked offline for T1 buffer ownership alternation, T2 frame numbers 0,1,2.. each encoded and pushed exactly once, T3 stop tokens, T4 hasher FIFO/no-loss, T5 all helpers exited before return; distinct = distinct interleavings (hash of the log projected to (role, site))",
+        rule: "every scenario (generated input with alternating cheap/expensive blocks x configuration x W in {1,2,3,4,8,16,32} or FLACENC_WORKERS in 17 strings (incl. 0, unparsable, usize::MAX, 2^63, 2^32, 1025) x 8 schedule policies injected at the hook's scheduling points; plus 'long' scenarios of more than 65536 frames and 'big' scenarios with blocks of 64-768 KiB raw from a source without a length hint) runs in a supervised child, one multi-thread call at a time: bytes(single) == bytes(multi) == bytes(frame-by-frame assembly) == bytes(multi, repeated); the totally ordered event log is checked offline for T1 buffer ownership alternation, T2 frame numbers 0,1,2.. each encoded and pushed exactly once, T3 stop tokens, T4 hasher FIFO/no-loss, T5 all helpers exited before return; distinct = distinct interleavings (hash of the log projected to (role, site))",
         assumptions: vec!["schedules are sampled by real threads + injected delays at the library's own suspension points; not all interleavings are visited".into(), "deadlock is decided by /proc state (all tasks in futex wait, no CPU time or context switch for 2 s), never by a deadline".into()],
         exhaustive: None,
         floors: vec![("runs in which a frame completed before a lower-numbered one".into(), ooo, 10)],
@@ -556,10 +573,11 @@ pub fn run_c06(ctx: &Ctx) -> i32 {
     supervise_sub(ctx, "combo", ctx.tier.pick(480, 16_000), &agg);
     supervise_sub(ctx, "faultfree", ctx.tier.pick(480, 16_000), &agg);
     supervise_sub(ctx, "ragged", ctx.tier.pick(240, 8000), &agg);
+    supervise_sub(ctx, "env", ctx.tier.pick(136, 2720), &agg);
     let out = std::mem::take(&mut agg.lock().unwrap().out);
     let fin = Finish {
         level: "fault_enumeration",
-        rule: "'enum' enumerates F in {1,2,3,5,8,12} (thorough: {1,2,3,4,5,8,12,20}) frames x fault kind (read error at read k for every k in 0..=F; out-of-range sample at first/middle/last position of block k for every k < F) x W x schedule policy (quick: W in {1,2,3,4}, 5 policies; thorough: W in {1,2,3,4,8,16}, 8 policies); 'combo' = 2-4 random faults; 'faultfree' = no fault; 'ragged' = a block that is not a whole number of inter-channel samples at a random read (judged like the other faults: same outcome kind as single-thread, return, no panic, no thread left). A quarter of the sources signal the end with a bare Ok(0) instead of an empty fill. Each scenario runs in a supervised child: the call must return (deadlock = all tasks in futex wait without CPU time/context switches for 20 samples), no thread may panic, the error kind must equal single-thread's for the same source, no helper thread may be alive at return (event log T5 + /proc/self/task), and fault-free runs satisfy T1-T4; distinct = distinct interleavings",
+        rule: "'enum' enumerates F in {1,2,3,5,8,12} (thorough: {1,2,3,4,5,8,12,20}) frames x fault kind (read error at read k for every k in 0..=F; out-of-range sample at first/middle/last position of block k for every k < F) x W x schedule policy (quick: W in {1,2,3,4}, 5 policies; thorough: W in {1,2,3,4,8,16}, 8 policies); 'combo' = 2-4 random faults; 'faultfree' = no fault; 'env' = 0-2 faults with the worker count taken from FLACENC_WORKERS (17 strings incl. 0, unparsable, usize::MAX, 2^63); 'ragged' = a block that is not a whole number of inter-channel samples at a random read (judged like the other faults: same outcome kind as single-thread, return, no panic, no thread left). A quarter of the sources signal the end with a bare Ok(0) instead of an empty fill. Each scenario runs in a supervised child: the call must return (deadlock = all tasks in futex wait without CPU time/context switches for 20 samples), no thread may panic, the error kind must equal single-thread's for the same source, no helper thread may be alive at return (event log T5 + /proc/self/task), and fault-free runs satisfy T1-T4; distinct = distinct interleavings",
         assumptions: vec!["a livelock that keeps switching context would be inconclusive (watchdog), not a violation".into()],
         exhaustive: Some(false),
         floors: vec![("scenarios that returned an error (fault manifested)".into(), out.stats.iter().filter(|(k, _)| k.starts_with("result_par_Err")).map(|(_, v)| *v).sum(), 100)],
